@@ -45,15 +45,15 @@ type lmStats struct {
 }
 
 type lmRun struct {
-	lm      *gcsutil.TransientLockMap
-	s       *sched.Sched
-	inCS    map[string]int
-	held    map[string]int // key -> number of callers between "Lock returned true" and "Unlock returned" (gates the erroneous Unlock)
-	active  map[int]string // worker -> key it is inside Lock()/holding/Unlock()
-	viol    string
-	ctxs    []context.Context
-	cancels []context.CancelFunc
-	st      lmStats
+	lm           *gcsutil.TransientLockMap
+	s            *sched.Sched
+	inCS         map[string]int
+	held         map[string]int // key -> number of callers between "Lock returned true" and "Unlock returned" (gates the erroneous Unlock)
+	active       map[int]string // worker -> key it is inside Lock()/holding/Unlock()
+	viol         string
+	ctxs         []context.Context
+	cancels      []context.CancelFunc
+	st           lmStats
 	lastKeyActor map[string]int
 }
 
@@ -303,9 +303,9 @@ func TestC19Random(t *testing.T) {
 // ---------------------------------------------------------------- exhaustive / preemption-bounded
 
 type lmConfig struct {
-	c          LMCase
-	maxPreempt int  // -1 = all schedules
-	thorough   bool // only in the thorough tier
+	c                  LMCase
+	maxPreempt         int  // -1 = all schedules
+	thorough           bool // only in the thorough tier
 	maxPreemptThorough int
 }
 
